@@ -8,20 +8,41 @@ Quiet == \A m \in Honest : /\ UsefulProps(m) = {}
                             /\ UsefulTimeouts(m) = {}
                             /\ {tc \in tcs : tc.round >= ns[m].r} = {}
                             /\ ~InternalEnabled(m)
+\* proposer.rs make_block: after broadcasting its block the proposer waits until authorities holding a quorum of the stake (its own
+\* included) acknowledged the frame (network-level ACK on receipt), and only then takes the next Make request or mempool digest.
+\* `pbusy[n]` = the acknowledgements still being collected (NotBusy when idle).  Silent authorities never acknowledge.
+VARIABLE pbusy
+lvars == <<gvars, pbusy>>
+NotBusy == [blk |-> Genesis, acks |-> {}]
+AckStake(S) == LET RECURSIVE Sm(_) Sm(T) == IF T = {} THEN 0 ELSE LET x == CHOOSE y \in T : TRUE IN Stake[x] + Sm(T \ {x}) IN Sm(S)
+Enough(n, acks) == IF "proposer_excludes_self" \in Weaken THEN AckStake(acks) >= Quorum ELSE AckStake(acks \cup {n}) >= Quorum
+LPropose(n) ==
+  /\ pbusy[n] = NotBusy /\ ns[n].makeQ # <<>>
+  /\ LET m == Head(ns[n].makeQ) IN pbusy' = [pbusy EXCEPT ![n] = [blk |-> <<m.round, n, 0, m.qc>>, acks |-> {}]]
+  /\ Propose(n)
+NetAck(n, m) ==     \* the frame carrying n's block reaches the live authority m, whose receiver acknowledges it
+  /\ pbusy[n] # NotBusy /\ m \in Honest \ {n} /\ m \notin pbusy[n].acks
+  /\ LET a == pbusy[n].acks \cup {m} IN
+     pbusy' = [pbusy EXCEPT ![n] = IF Enough(n, a) THEN NotBusy ELSE [@ EXCEPT !.acks = a]]
+  /\ UNCHANGED vars
+AcksPending == \E n \in Honest : \E m \in Honest \ {n} : pbusy[n] # NotBusy /\ m \notin pbusy[n].acks
 LiveNext ==
   /\ UNCHANGED <<budget, acts>>
   /\ \E n \in Honest :
-       \/ \E p \in UsefulProps(n) : RecvProposal(n, p, TRUE)
-       \/ \E w \in UsefulVotes(n) : w.to = n /\ RecvVote(n, [blk |-> w.blk, author |-> w.author])
-       \/ \E t \in UsefulTimeouts(n) : RecvTimeout(n, t)
-       \/ \E tc \in tcs : tc.round >= ns[n].r /\ RecvTC(n, tc)
-       \/ Quiet /\ Timer(n)
-       \/ Propose(n)
-       \/ \E p \in ns[n].loopQ : DoLoopback(n, p)
-       \/ \E p \in ns[n].parked : DoSyncResume(n, p)
-LiveSpec == GInit /\ [][LiveNext]_gvars /\ WF_gvars(LiveNext)
+       \/ (\E p \in UsefulProps(n) : RecvProposal(n, p, TRUE)) /\ UNCHANGED pbusy
+       \/ (\E w \in UsefulVotes(n) : w.to = n /\ RecvVote(n, [blk |-> w.blk, author |-> w.author])) /\ UNCHANGED pbusy
+       \/ (\E t \in UsefulTimeouts(n) : RecvTimeout(n, t)) /\ UNCHANGED pbusy
+       \/ (\E tc \in tcs : tc.round >= ns[n].r /\ RecvTC(n, tc)) /\ UNCHANGED pbusy
+       \/ Quiet /\ ~AcksPending /\ Timer(n) /\ UNCHANGED pbusy
+       \/ LPropose(n)
+       \/ \E m \in Honest : NetAck(n, m)
+       \/ (\E p \in ns[n].loopQ : DoLoopback(n, p)) /\ UNCHANGED pbusy
+       \/ (\E p \in ns[n].parked : DoSyncResume(n, p)) /\ UNCHANGED pbusy
+LiveSpec == GInit /\ pbusy = [n \in Honest |-> NotBusy] /\ [][LiveNext]_lvars /\ WF_lvars(LiveNext)
 Progress == <>(\/ \A n \in Honest : Len(delivered[n]) >= 1
                \/ \E n \in Honest : ns[n].r >= MaxRound)
 \* every explored behaviour that reaches the last round has committed at least once somewhere (no silent loss of progress)
+\* commits keep coming: by the time the explored rounds end somebody has committed twice
+CommitsKeepComing == (\E n \in Honest : ns[n].r >= MaxRound) => \E n \in Honest : Len(delivered[n]) >= 2
 CommitBeforeEnd == (\E n \in Honest : ns[n].r >= MaxRound) => \E n \in Honest : Len(delivered[n]) >= 1
 ====
